@@ -111,7 +111,7 @@ def merge_arms(out, mc, pending):
             ob.status = "inconclusive"
             ob.detail = "merge_values: %d candidates" % len(fn)
         return
-    ex = symex.Executor(fns, max_visits=3)
+    ex = symex.Executor(fns, max_visits=symex.visits(3))
     t0 = time.time()
     paths = ex.run(fn[0])
     out.extra_cov.setdefault("symbolic_execution", []).append({"function": "merge_values", "paths": len(paths), "seconds": round(time.time() - t0, 2), **ex.stats})
